@@ -267,9 +267,23 @@ def c20(pid, tier, replay):
                 n += 1
         # the debug HTTP task itself on a loopback address (real time): free address, address occupied across the first
         # attempt(s), cancellation while waiting for the next attempt, immediate cancellation
+        # (model first: spec/HttpTask.tla, the task against every (busy, cancel) pair and every resolution of the races,
+        # judged by the same ServReq!OnHttp as the recorded runs; the second configuration exhausts the 40 attempts)
+        for name, busys, cancels in (("http", "{0, 200, 1500, 2400, 3000, 3500, 7000}", "{0, 100, 600, 1000, 2500, 3000, 4500, 6000, 6500, 9500, 13000}"),
+                                     ("http-exhaust", "{116000, 117000, 120000, 200000}", "{5000, 116500, 117000, 118000, 130000}")):
+            cfg = os.path.join(tmp, "Http_%s.cfg" % name)
+            consts = dict(Busys=busys, Cancels=cancels, Delay=3000, Attempts=40)
+            _tlc_cfg(cfg, "HSpec", consts, "Req NoErrUnlessExhausted ReadyOnlyWhenFree")
+            with open(cfg, "a") as f:
+                f.write("PROPERTIES Ends\n")
+            r = vf.tlc("HttpTask", cfg, workdir=vf.mktmp("vf-hmc-"), timeout=600, heap="4g")
+            mcs.append({"config": "HttpTask " + name, "constants": consts, "states": r["states"], "transitions": r["generated"],
+                        "ok": r["ok"], "violation": r["violation"], "wall_s": round(r["wall_s"], 1)})
+            if not r["ok"]:
+                print("MODEL-COUNTEREXAMPLE property=C20 config=HttpTask-%s %s (not a verdict)" % (name, r["violation"]))
         https = [(0, 600), (0, 0), (1500, 1000), (1500, 6500)]
         if tier == "thorough":
-            https += [(0, 2500), (2999, 6200), (3500, 9500), (3500, 4500), (200, 100)]
+            https += [(0, 2500), (2400, 6000), (3500, 9500), (3500, 4500), (200, 100)]
         for j, (busy, cancel) in enumerate(https):
             scen.append({"kind": "http", "id": "C20-http-%02d" % j, "busy_ms": busy, "cancel_ms": cancel})
     nshards = min(vf.NCPU, max(1, len(scen) // 60))
@@ -321,7 +335,7 @@ def c20(pid, tier, replay):
                        "Serve runs in real time: quiescence is detected by an event counter that stays unchanged for a few milliseconds",
                        "the set-terminator-before-cancel ordering inside the signal task cannot be forced, only exposed statistically by "
                        "stub tasks that read terminate() the moment they see cancellation",
-                       "the HTTP server itself (net/http) is not started; only the retry policy of serve() is driven"],
+                       "the debug HTTP task is run for real on a loopback address (http scenarios, real time, timing clauses with 2.5 s slack and believed only when seen twice); its 40-attempt exhaustion (117 s) is covered by the model and the virtual-time retry vectors only"],
                       time.time() - t0, violations=len(viols))
     print("C20 %s: model states=%d, %d scripts/vectors on the real server code, %d events validated, %d violation(s), %.0fs"
           % (tier, cov["states"], len(scen), len(rows), len(viols), time.time() - t0))
